@@ -842,6 +842,12 @@ func processStructProvider(fset *token.FileSet, info *types.Info, call *ast.Call
 			fmt.Errorf(firstArgReqFormat, types.TypeString(structPtr, nil)))
 	}
 	typeName := named.Obj()
+	// Prefer the name the user wrote, if the type is written as a (possibly
+	// qualified) identifier: it may be an exported alias of a type that the
+	// injector's package cannot name.
+	if written, ok := qualifiedIdentObject(info, structPointerTypeExpr(call.Args[0])).(*types.TypeName); ok {
+		typeName = written
+	}
 	provider := &Provider{
 		Pkg:      typeName.Pkg(),
 		Name:     typeName.Name(),
@@ -882,6 +888,34 @@ func processStructProvider(fset *token.FileSet, info *types.Info, call *ast.Call
 		}
 	}
 	return provider, nil
+}
+
+// structPointerTypeExpr returns the expression for T in the three ways of
+// writing a *T argument - new(T), (*T)(nil) and &T{} - or nil.
+func structPointerTypeExpr(arg ast.Expr) ast.Expr {
+	switch arg := arg.(type) {
+	case *ast.CallExpr:
+		if len(arg.Args) != 1 {
+			return nil
+		}
+		fun := arg.Fun
+		for {
+			paren, ok := fun.(*ast.ParenExpr)
+			if !ok {
+				break
+			}
+			fun = paren.X
+		}
+		if star, ok := fun.(*ast.StarExpr); ok {
+			return star.X // (*T)(nil)
+		}
+		return arg.Args[0] // new(T)
+	case *ast.UnaryExpr:
+		if lit, ok := arg.X.(*ast.CompositeLit); ok && arg.Op == token.AND {
+			return lit.Type // &T{}
+		}
+	}
+	return nil
 }
 
 func allFields(call *ast.CallExpr) bool {
